@@ -101,3 +101,67 @@ func underOwnThreshold(f *core.Fn, n ast.Node, obj types.Object) bool {
 	}
 	return false
 }
+
+// productComputedWide: `uint16(a * b)` multiplies in the operands' type and widens afterwards.  With two uint8 operands
+// that come from the wire or from list lengths (ASN count × ASN size, entries × entry size) the product wraps at 256
+// before the conversion can help: the decoder's position bookkeeping (or an encoder's length) is short by a multiple of
+// 256 for long lists, and a correct message no longer decodes.  Rule: in the BGP packet package no conversion to a
+// wider integer type has as operand a product whose type is narrower and whose factors are both non-constant.
+func productComputedWide(c *core.Ctx) {
+	const rule = "product-computed-in-the-wide-type"
+	p := c.P
+	n, bad := 0, 0
+	for _, f := range p.FuncsIn(pktPkg) {
+		if f.Decl.Body == nil || isTestFn(p, f) {
+			continue
+		}
+		ast.Inspect(f.Decl.Body, func(nd ast.Node) bool {
+			call, ok := nd.(*ast.CallExpr)
+			if !ok || len(call.Args) != 1 {
+				return true
+			}
+			tv, ok := f.Pkg.TypesInfo.Types[call.Fun]
+			if !ok || !tv.IsType() {
+				return true
+			}
+			to, ok := tv.Type.Underlying().(*types.Basic)
+			if !ok || to.Info()&types.IsInteger == 0 {
+				return true
+			}
+			be, ok := core.Unparen(call.Args[0]).(*ast.BinaryExpr)
+			if !ok || be.Op != token.MUL {
+				return true
+			}
+			n++
+			from, ok := f.Pkg.TypesInfo.TypeOf(be).Underlying().(*types.Basic)
+			if !ok || widthOf(from) >= widthOf(to) {
+				return true
+			}
+			if core.ConstOf(f.Pkg, be.X) != nil || core.ConstOf(f.Pkg, be.Y) != nil {
+				// one constant factor: still wraps for large values, but the repo's instances (count*4 on a uint8 count
+				// already range-checked) are decided by the length-octet rules
+				return true
+			}
+			bad++
+			c.Analysed(f)
+			c.Check(false, rule, fmt.Sprintf("%s widens the product %s after computing it in %s", f.Name(), core.ExprString(be), from.Name()), call.Pos(),
+				fmt.Sprintf("`%s` is computed in %s and converted to %s afterwards: for factors whose product exceeds the narrow type (a long AS path segment: 64 four-octet ASNs) the value wraps before the conversion, so the position/length bookkeeping is wrong and a well-formed message is rejected or mis-framed", core.ExprString(be), from.Name(), to.Name()))
+			return true
+		})
+	}
+	if bad == 0 {
+		c.Check(true, rule, fmt.Sprintf("packet package: %d widened products examined, none computed in a narrower type from two variable factors", n), 0, "")
+	}
+}
+
+func widthOf(b *types.Basic) int {
+	switch b.Kind() {
+	case types.Int8, types.Uint8:
+		return 8
+	case types.Int16, types.Uint16:
+		return 16
+	case types.Int32, types.Uint32:
+		return 32
+	}
+	return 64
+}
